@@ -387,16 +387,28 @@ func TestCheck(t *testing.T) {
 		return fa.mode < fb.mode
 	})
 	perSig := map[string]int{}
+	listed := map[string][]string{}
 	for _, pf := range failures {
-		sig := fmt.Sprintf("%s after %s crash", pf.f.What, modeNames[pf.mode])
-		if !runs[pf.w].Sync {
-			sig += " (without SyncWrites)"
+		// what failed names the signature; for losses the loss mode is part
+		// of what failed, for a non-idempotent second restart it is not
+		sig := pf.f.What
+		if !strings.HasPrefix(sig, "second ") {
+			sig = fmt.Sprintf("%s after %s crash", pf.f.What, modeNames[pf.mode])
+			if !runs[pf.w].Sync {
+				sig += " (without SyncWrites)"
+			}
 		}
 		perSig[sig]++
+		if len(listed[sig]) < 60 {
+			listed[sig] = append(listed[sig], fmt.Sprintf("%s prefix %d %s, last op %v", runs[pf.w].Name, pf.j, modeNames[pf.mode], pf.f.Detail["last_fs_op_before_crash"]))
+		}
 		r.Violation(sig, pf.f.Detail)
 	}
 	for sig, n := range perSig {
 		r.Count("failing_points: "+sig, n)
+	}
+	if len(listed) > 0 {
+		r.Set("failing_points", listed)
 	}
 
 	// boundary coverage
